@@ -5,6 +5,10 @@
 #include "LookaheadSMTSolver.h"
 #include "ResolutionProof.h"
 
+#ifdef OPENSMT_VERIF
+#include <common/VerifTrace.h>
+#endif
+
 namespace opensmt {
 LookaheadSMTSolver::LookaheadSMTSolver(SMTConfig & c, THandler & thandler)
     : SimpSMTSolver(c, thandler),
@@ -86,6 +90,9 @@ lbool LookaheadSMTSolver::laPropagateWrapper() {
             vec<Lit> out_learnt;
             int out_btlevel;
             analyze(cr, out_learnt, out_btlevel);
+#ifdef OPENSMT_VERIF
+            veriftrace::clause("l", static_cast<void const *>(&theory_handler), out_learnt);
+#endif
             // Backtracking back to the second best decision level in the clause
             cancelUntil(out_btlevel);
             assert(value(out_learnt[0]) == l_Undef);
